@@ -12,7 +12,7 @@ import (
 )
 
 func init() {
-	register("C05", "Whole property (round trip of every emitted packet through an independent decoder, for all inputs) is value-level and NOT decided. Decided: everything about packet construction that is a table, an order or a guard. R-C05-1 constant tables equal MQTT 3.1.1 (packet types, CONNECT/PUBLISH/SUBSCRIBE flag bits, protocol levels and name); R-C05-2 fixed-header bytes: every Pack/pack site carries the spec's type nibble and reserved bits, PUBLISH = 0x30 | retain?0x01 | qos<<1 | dup?0x08 each guarded by the corresponding field; R-C05-3 Pack and Parse use inverse tables for QoS/retain/dup and agree on when the identifier is present; R-C05-4 field order of every packet body, recovered by decomposing the byte sequence passed to pack() (CONNECT optional groups appended exactly under the condition that sets their flag bit; SUBSCRIBE per-filter options byte a constant function of that filter's QoS only); R-C05-5 length prefixes: uint16 big-endian, and every truncation of a length to 16 bits is dominated by the 65535 guard; R-C05-6 remaining-length encoder bytes and thresholds checked bit by bit for the four ranges, decoder uses the mirror constants, pack() sums exactly the slices it appends; R-C05-7 messages the protocol cannot carry are rejected before anything is written; R-C05-8 the inbound PUBLISH carries exactly the parsed fields and its length guards are exact. Not decided: byte equality for all inputs; UTF-8 handling.", checkC05)
+	register("C05", "Whole property (round trip of every emitted packet through an independent decoder, for all inputs) is value-level and NOT decided. Decided: everything about packet construction that is a table, an order or a guard. R-C05-1 constant tables equal MQTT 3.1.1 (packet types, CONNECT/PUBLISH/SUBSCRIBE flag bits, protocol levels and name); R-C05-2 fixed-header bytes: every Pack/pack site carries the spec's type nibble and reserved bits, PUBLISH = 0x30 | retain?0x01 | qos<<1 | dup?0x08 each guarded by the corresponding field; R-C05-3 Pack and Parse use inverse tables for QoS/retain/dup and agree on when the identifier is present; R-C05-4 field order of every packet body, recovered by decomposing the byte sequence passed to pack() (CONNECT optional groups appended exactly under the condition that sets their flag bit; SUBSCRIBE per-filter options byte a constant function of that filter's QoS only); R-C05-5 length prefixes: uint16 big-endian, and every truncation of a length to 16 bits is dominated by the 65535 guard; R-C05-6 remaining-length encoder bytes and thresholds checked bit by bit for the four ranges, decoder uses the mirror constants, pack() sums exactly the slices it appends; R-C05-7 messages the protocol cannot carry are rejected before anything is written; R-C05-8 the inbound PUBLISH carries exactly the parsed fields and its length guards are exact; R-C05-9 identifiers on the wire are non-zero; R-C05-10 the DUP bit is decided before the PUBLISH is packed; R-C05-11 the subscription list that re-SUBSCRIBE packets are built from records the requested (not the granted) QoS. Not decided: byte equality for all inputs; UTF-8 handling.", checkC05)
 }
 
 var specConsts = map[string]int64{
@@ -173,6 +173,11 @@ func checkC05(r *Run) {
 	c.ruleNewIDNonZero(r9)
 	r10 := r.Rule("R-C05-10", "the DUP bit put on the wire is the one decided for this transmission: Message.Dup is assigned before the PUBLISH is packed, on every path")
 	c.ruleDupDecidedBeforePack(r10)
+	// ---- R-C05-11
+	r11 := r.Rule("R-C05-11", "a SUBSCRIBE sent again after a reconnect carries the QoS the application requested: the request is recorded in the established list before BaseClient.Subscribe overwrites it with what the broker granted")
+	if a := c.retryAnchors(); !a.lost(r11) {
+		c.ruleEstablishedApply(r11, a)
+	}
 	// ---- R-C05-8
 	c.ruleInboundFields(r8)
 	c.ruleGuardTightness(r8, []string{"pktPublish"})
